@@ -152,3 +152,252 @@ Proof.
   destruct host_byte_ok_excludes as (A & B & C & D & E & F & _).
   repeat split; eapply all_bytes_not_mem; eauto.
 Qed.
+
+(* ------------------------------------------------------------------ the grammar, generatively: build then split *)
+Ltac ascii_cases c := destruct c as [[|] [|] [|] [|] [|] [|] [|] [|]]; vm_compute; try discriminate; intros; repeat split; try reflexivity.
+
+Lemma scheme_byte_facts c : scheme_byte c = true ->
+  is_ctl c = false /\ Ascii.eqb c "#" = false /\ Ascii.eqb c "?" = false /\ Ascii.eqb c "%" = false.
+Proof. ascii_cases c. Qed.
+
+Lemma alpha_not_star c : is_alpha c = true -> Ascii.eqb c "*" = false.
+Proof. ascii_cases c. Qed.
+
+Lemma alpha_scheme_byte c : is_alpha c = true -> scheme_byte c = true.
+Proof. unfold scheme_byte. intros ->. reflexivity. Qed.
+
+Lemma userinfo_byte_facts c : userinfo_byte_ok c = true ->
+  is_ctl c = false /\ Ascii.eqb c "#" = false /\ Ascii.eqb c "?" = false /\ Ascii.eqb c "/" = false.
+Proof. ascii_cases c. Qed.
+
+Lemma host_byte_facts c : host_byte_ok c = true ->
+  is_ctl c = false /\ Ascii.eqb c "#" = false /\ Ascii.eqb c "?" = false /\ Ascii.eqb c "/" = false /\
+  Ascii.eqb c "@" = false /\ Ascii.eqb c "%" = false.
+Proof. ascii_cases c. Qed.
+
+Lemma get_scheme_tail t X :
+  all_bytes scheme_byte t = true -> get_scheme_from false (t ++ String ":" X) = GsSome t X.
+Proof.
+  induction t as [|c t IH]; simpl.
+  - intros _. reflexivity.
+  - intro H. apply andb_true_iff in H as [Hc Ht]. rewrite (IH Ht).
+    unfold scheme_byte in Hc. destruct (is_alpha c); simpl; [reflexivity|].
+    simpl in Hc. rewrite Hc. reflexivity.
+Qed.
+
+Lemma get_scheme_valid sch X :
+  valid_scheme sch = true -> get_scheme_from true (sch ++ String ":" X) = GsSome sch X.
+Proof.
+  destruct sch as [|c t]; simpl; [discriminate|].
+  intro H. apply andb_true_iff in H as [Hc Ht]. rewrite Hc. simpl. rewrite (get_scheme_tail _ _ Ht). reflexivity.
+Qed.
+
+Lemma no_ctl_all p s : (forall c, p c = true -> is_ctl c = false) -> all_bytes p s = true ->
+  all_bytes (fun c => negb (is_ctl c)) s = true.
+Proof. intros Hp. apply all_bytes_impl. intros c Hc. rewrite (Hp _ Hc). reflexivity. Qed.
+
+Lemma valid_scheme_bytes sch : valid_scheme sch = true -> all_bytes scheme_byte sch = true.
+Proof.
+  destruct sch as [|c t]; simpl; [discriminate|]. intro H. apply andb_true_iff in H as [Hc Ht].
+  rewrite (alpha_scheme_byte _ Hc), Ht. reflexivity.
+Qed.
+
+(* the userinfo part "u@" (or nothing): its bytes *)
+Definition ui_at (ui : option string) : string := match ui with Some u => u ++ "@" | None => "" end.
+
+Lemma ui_at_bytes ui : valid_userinfo ui = true ->
+  all_bytes userinfo_byte_ok (ui_at ui) = true.
+Proof.
+  destruct ui as [u|]; simpl; [|reflexivity]. intro H. apply andb_true_iff in H as [H _].
+  rewrite all_bytes_app, H. reflexivity.
+Qed.
+
+Lemma valid_host_bytes h : valid_host h = true -> all_bytes host_byte_ok h = true /\ parse_host h = Some h.
+Proof.
+  unfold valid_host. destruct (parse_host h) as [h'|] eqn:E; [|discriminate]. intros _.
+  apply parse_host_some in E as [-> E]. auto.
+Qed.
+
+Lemma rest_shape r : valid_rest r = true ->
+  path_of_rest r = "" \/ exists p, path_of_rest r = String "/" p.
+Proof.
+  unfold valid_rest, path_of_rest. destruct r as [|c r]; [left; reflexivity|].
+  intro H. apply andb_true_iff in H as [H _]. apply andb_true_iff in H as [H _].
+  change (mem_byte c "/?#") with (Ascii.eqb "/" c || (Ascii.eqb "?" c || (Ascii.eqb "#" c || false))) in H.
+  destruct (Ascii.eqb_spec "/" c) as [<-|N1].
+  - simpl. destruct (cut "#" r) as [a b]; simpl. destruct (cut "?" a) as [x y]. right. eexists. reflexivity.
+  - destruct (Ascii.eqb_spec "?" c) as [<-|N2].
+    + simpl. destruct (cut "#" r); simpl. left. reflexivity.
+    + destruct (Ascii.eqb_spec "#" c) as [<-|N3]; [simpl; left; reflexivity|discriminate H].
+Qed.
+
+Lemma cut_hash_shape a r : mem_byte "#" a = false -> fst (cut "#" (a ++ r)) = a ++ fst (cut "#" r).
+Proof. intro H. rewrite (cut_app_nomem _ _ _ H). reflexivity. Qed.
+
+Theorem go_split_build sch ui h rest :
+  valid_scheme sch = true -> valid_userinfo ui = true -> valid_host h = true -> valid_rest rest = true ->
+  go_split (build_url sch ui h rest) = SOk (lower sch) ui h (path_of_rest rest)
+  /\ in_grammar (build_url sch ui h rest) = true.
+Proof.
+  intros Hs Hu Hh Hr.
+  pose proof (valid_scheme_bytes _ Hs) as Hsb.
+  pose proof (ui_at_bytes _ Hu) as Hub.
+  destruct (valid_host_bytes _ Hh) as [Hhb Hph].
+  assert (Hr' := Hr). unfold valid_rest in Hr'. apply andb_true_iff in Hr' as [Hr1 Hr3]. apply andb_true_iff in Hr1 as [Hr1 Hr2].
+  apply negb_true_iff in Hr2. apply negb_true_iff in Hr3.
+  (* no '#', '?', '/', '%' in the parts before rest *)
+  assert (Ns : forall c, (c = "#" \/ c = "?" \/ c = "%")%char -> mem_byte c sch = false).
+  { intros c Hc. eapply all_bytes_not_mem; [exact Hsb|]. destruct Hc as [->|[->| ->]]; reflexivity. }
+  assert (Nu : forall c, (c = "#" \/ c = "?" \/ c = "/")%char -> mem_byte c (ui_at ui) = false).
+  { intros c Hc. eapply all_bytes_not_mem; [exact Hub|]. destruct Hc as [->|[->| ->]]; reflexivity. }
+  assert (Nh : forall c, (c = "#" \/ c = "?" \/ c = "/" \/ c = "@" \/ c = "%")%char -> mem_byte c h = false).
+  { intros c Hc. eapply all_bytes_not_mem; [exact Hhb|]. destruct Hc as [->|[->|[->|[->| ->]]]]; reflexivity. }
+  set (B := ui_at ui ++ h).
+  assert (EB : build_url sch ui h rest = sch ++ String ":" (String "/" (String "/" (B ++ rest)))).
+  { unfold build_url, B, ui_at. simpl. rewrite app_assoc_s. reflexivity. }
+  split.
+  2:{ unfold in_grammar. rewrite EB. rewrite mem_byte_app. simpl. unfold B. rewrite !mem_byte_app.
+      rewrite (Ns "%"%char) by auto. rewrite (Nh "%"%char) by auto. rewrite Hr3.
+      destruct ui as [u|]; simpl; [|reflexivity].
+      unfold valid_userinfo in Hu. apply andb_true_iff in Hu as [_ Hu]. apply negb_true_iff in Hu.
+      rewrite mem_byte_app, Hu. reflexivity. }
+  unfold go_split. rewrite EB.
+  (* cut at '#' *)
+  assert (E1 : fst (cut "#" (sch ++ String ":" (String "/" (String "/" (B ++ rest))))) =
+               sch ++ String ":" (String "/" (String "/" (B ++ fst (cut "#" rest))))).
+  { rewrite cut_hash_shape by (apply Ns; auto). simpl.
+    change (String "/" (String "/" (B ++ rest))) with ("//" ++ (B ++ rest)).
+    assert (mem_byte "#" B = false) as HB.
+    { unfold B. rewrite mem_byte_app, (Nu "#"%char), (Nh "#"%char) by auto. reflexivity. }
+    simpl. destruct (cut "#" (B ++ rest)) as [x y] eqn:Ec. simpl.
+    rewrite (cut_app_nomem _ _ _ HB) in Ec. injection Ec as <- _. reflexivity. }
+  rewrite E1. set (r1 := fst (cut "#" rest)).
+  (* no control byte *)
+  assert (Hctl : has_ctl (sch ++ String ":" (String "/" (String "/" (B ++ r1)))) = false).
+  { unfold has_ctl. apply negb_false_iff. rewrite all_bytes_app. simpl. unfold B. rewrite !all_bytes_app.
+    rewrite (no_ctl_all scheme_byte sch) by (auto; intros c Hc; apply scheme_byte_facts in Hc; tauto).
+    rewrite (no_ctl_all userinfo_byte_ok (ui_at ui)) by (auto; intros c Hc; apply userinfo_byte_facts in Hc; tauto).
+    rewrite (no_ctl_all host_byte_ok h) by (auto; intros c Hc; apply host_byte_facts in Hc; tauto).
+    unfold has_ctl in Hr2. apply negb_false_iff in Hr2. fold r1 in Hr2. rewrite Hr2. reflexivity. }
+  rewrite Hctl.
+  (* not "*" *)
+  destruct sch as [|c0 t0] eqn:Esch; [discriminate|].
+  assert (Hstar : String.eqb ((String c0 t0) ++ String ":" (String "/" (String "/" (B ++ r1)))) "*" = false).
+  { simpl. simpl in Hs. apply andb_true_iff in Hs as [Hc0 _]. rewrite (alpha_not_star _ Hc0). reflexivity. }
+  rewrite Hstar. rewrite <- Esch in *.
+  rewrite (get_scheme_valid sch _ Hs).
+  cbv zeta. cbv beta iota.
+  (* cut at '?' *)
+  assert (E2 : fst (cut "?" (String "/" (String "/" (B ++ r1)))) = String "/" (String "/" (B ++ path_of_rest rest))).
+  { simpl. assert (mem_byte "?" B = false) as HB.
+    { unfold B. rewrite mem_byte_app, (Nu "?"%char), (Nh "?"%char) by auto. reflexivity. }
+    rewrite (cut_app_nomem _ _ _ HB). reflexivity. }
+  rewrite E2. set (r2 := path_of_rest rest).
+  assert (Hne : String.eqb (lower sch) "" = false) by (rewrite Esch; reflexivity).
+  rewrite Hne. simpl negb. rewrite !andb_false_r. simpl orb.
+  change (starts_with "//" (String "/" (String "/" (B ++ r2)))) with (String.prefix "//" ("//" ++ (B ++ r2))).
+  rewrite prefix_app. cbv iota.
+  rewrite substring_skip2.
+  (* the authority ends at the first '/' *)
+  assert (HBs : mem_byte "/" B = false).
+  { unfold B. rewrite mem_byte_app, (Nu "/"%char), (Nh "/"%char) by auto. reflexivity. }
+  assert (E3 : cut "/" (B ++ r2) = (B, match r2 with EmptyString => None | String _ p => Some p end)).
+  { destruct (rest_shape _ Hr) as [E|[p E]]; fold r2 in E; rewrite E.
+    - rewrite app_nil_r_s. apply cut_nomem. exact HBs.
+    - rewrite (cut_app_nomem _ _ _ HBs). simpl. rewrite app_nil_r_s. reflexivity. }
+  rewrite E3.
+  (* parseAuthority *)
+  assert (E4 : parse_authority B = Some (ui, h)).
+  { unfold parse_authority, B, ui_at. destruct ui as [u|].
+    - rewrite app_assoc_s. simpl. rewrite (cut_last_app "@" u h) by (apply Nh; auto).
+      rewrite Hph. unfold valid_userinfo in Hu. apply andb_true_iff in Hu as [Hu _]. rewrite Hu. reflexivity.
+    - simpl. rewrite (cut_last_nomem "@" h) by (apply Nh; auto). rewrite Hph. reflexivity. }
+  rewrite E4.
+  destruct (rest_shape _ Hr) as [E|[p E]]; fold r2 in E; rewrite E; reflexivity.
+Qed.
+
+(* ------------------------------------------------------------------ the getter's test on URL strings *)
+Section Strings.
+  Variable str_of : string -> string.      (* URL.String(), not modelled *)
+
+  Lemma go_parse_build sch ui h rest :
+    valid_scheme sch = true -> valid_userinfo ui = true -> valid_host h = true -> valid_rest rest = true ->
+    go_parse str_of (build_url sch ui h rest)
+    = Some (mkUrl (lower sch) h (path_of_rest rest) ui (str_of (build_url sch ui h rest))).
+  Proof.
+    intros Hs Hu Hh Hr. destruct (go_split_build _ _ _ _ Hs Hu Hh Hr) as [E G].
+    unfold go_parse. rewrite G, E. reflexivity.
+  Qed.
+
+  (* For ALL URL strings of the grammar: the configured pair is attached iff pass-credentials
+     is on or the two schemes are equal up to case and the two host[:port] parts are equal
+     byte for byte (and user name and password are non-empty); a request is always made. *)
+  Theorem getter_strings_iff o sch1 ui1 h1 r1 sch2 ui2 h2 r2 :
+    valid_scheme sch1 = true -> valid_userinfo ui1 = true -> valid_host h1 = true -> valid_rest r1 = true ->
+    valid_scheme sch2 = true -> valid_userinfo ui2 = true -> valid_host h2 = true -> valid_rest r2 = true ->
+    g_url o = build_url sch1 ui1 h1 r1 ->
+    (exists a, getter_get (go_parse str_of) o (build_url sch2 ui2 h2 r2) = GReq a) /\
+    forall c,
+    getter_get (go_parse str_of) o (build_url sch2 ui2 h2 r2) = GReq (Some c) <->
+    ((g_pass_all o = true \/ (lower sch1 = lower sch2 /\ h1 = h2)) /\
+     g_user o <> "" /\ g_pass o <> "" /\ c = Cred (g_user o) (g_pass o) (g_src o)).
+  Proof.
+    intros A1 A2 A3 A4 B1 B2 B3 B4 Eu.
+    pose proof (go_parse_build _ _ _ _ A1 A2 A3 A4) as P1.
+    pose proof (go_parse_build _ _ _ _ B1 B2 B3 B4) as P2.
+    split.
+    - unfold getter_get. rewrite Eu, P1, P2. destruct (_ && _); eauto.
+    - intro c. rewrite getter_get_auth_iff. rewrite Eu, P1, P2. split.
+      + intros (u1 & u2 & E1 & E2 & Ho & Hu & Hp & Hc). injection E1 as <-. injection E2 as <-. simpl in Ho. auto.
+      + intros (Ho & Hu & Hp & Hc). eexists. eexists. split; [reflexivity|]. split; [reflexivity|]. simpl. auto.
+  Qed.
+End Strings.
+
+(* ------------------------------------------------------------------ the origin the property means *)
+Lemma same_origin_origin_of u1 u2 : same_origin u1 u2 = true -> origin_of u1 = origin_of u2.
+Proof. intro H. apply same_origin_true in H as [Hs Hh]. unfold origin_of. rewrite Hs, Hh. reflexivity. Qed.
+
+(* forward direction, full strength, for any parser: a pair is attached only when
+   pass-credentials is on or scheme, host name (case-insensitively) and effective port of the
+   two URLs are equal *)
+Theorem getter_attached_property_origin (parse : string -> option url) o href c :
+  getter_get parse o href = GReq (Some c) ->
+  g_pass_all o = true \/
+  exists u1 u2, parse (g_url o) = Some u1 /\ parse href = Some u2 /\ origin_of u1 = origin_of u2.
+Proof.
+  intro H. apply getter_get_auth_iff in H as (u1 & u2 & E1 & E2 & Ho & _).
+  destruct Ho as [Ho|Ho]; [left; exact Ho|right]. exists u1, u2. repeat split; auto.
+  apply same_origin_origin_of. apply same_origin_true. exact Ho.
+Qed.
+
+(* The converse does NOT hold: the code compares url.Host byte for byte, so it withholds the
+   pair from some requests to the repository's own origin (the safe direction).  One witness
+   per normalisation the code does not do: default port spelled out, host-name case, empty
+   port, leading zero, bracketed IPv6 with the default port. *)
+Definition converse_witnesses : list (string * string) :=
+  [ ("http://h.test/charts", "http://h.test:80/charts/a.tgz");
+    ("https://h.test:443/charts", "https://h.test/charts/a.tgz");
+    ("http://h.test/charts", "http://H.test/charts/a.tgz");
+    ("http://h.test/charts", "http://h.test:/charts/a.tgz");
+    ("http://h.test:80/charts", "http://h.test:080/charts/a.tgz");
+    ("http://[::1]/charts", "http://[::1]:80/charts/a.tgz") ].
+
+Definition converse_witness_ok (w : string * string) : bool :=
+  let parse := go_parse (fun s => s) in
+  match parse (fst w), parse (snd w) with
+  | Some u1, Some u2 =>
+      origin_eqb (origin_of u1) (origin_of u2)
+      && match getter_get parse (mkOpts (fst w) "user" "pw" (fst w) false) (snd w) with GReq None => true | _ => false end
+  | _, _ => false
+  end.
+
+Lemma origin_converse_refuted : forallb converse_witness_ok converse_witnesses = true.
+Proof. vm_compute. reflexivity. Qed.
+
+(* and the property-level origin does tell the default port of the OTHER protocol apart
+   (http://host:443 is not http://host — the normalisation seeded as C19-7 is wrong) *)
+Lemma origin_other_default_port_differs :
+  origin_eqb (origin_of (mkUrl "http" "h.test:443" "" None "")) (origin_of (mkUrl "http" "h.test" "" None "")) = false /\
+  origin_eqb (origin_of (mkUrl "https" "h.test:80" "" None "")) (origin_of (mkUrl "https" "h.test" "" None "")) = false /\
+  origin_eqb (origin_of (mkUrl "http" "h.test:80" "" None "")) (origin_of (mkUrl "http" "H.TEST" "" None "")) = true.
+Proof. vm_compute. repeat split. Qed.
